@@ -15,11 +15,33 @@ def main():
         print("usage: check.py <Cnn> [--tier quick|thorough] [--replay FILE]")
         return 2
     prop = sys.argv[1].upper()
-    mod = importlib.import_module("props." + prop.lower())
-    runner = getattr(mod, "main", None)
-    if runner is not None:
-        return runner(sys.argv[2:])
-    return vlib.main(mod, sys.argv[2:])
+    # Files regenerated from the source (tables, constants, call graphs) live inside the shared lake project.  A run
+    # against a scratch tree (VERIF_REPO != /repo: a seeded change, a candidate fix) regenerates them from THAT tree,
+    # which is what ties its theorems to that tree - but it must not leave them behind: the committed files always
+    # describe /repo itself.  (A stale call graph of a mutated tree once got committed this way and broke setup_cmd.)
+    saved = {}
+    if not vlib._OWN:
+        import glob
+        for f in glob.glob(os.path.join(vlib.LEAN, "RtoscModel", "Generated", "*.lean")) + \
+                glob.glob(os.path.join(vlib.LEAN, "RtoscModel", "CallGraph", "Generated*.lean")):
+            with open(f, "rb") as fh:
+                saved[f] = fh.read()
+    try:
+        mod = importlib.import_module("props." + prop.lower())
+        runner = getattr(mod, "main", None)
+        if runner is not None:
+            return runner(sys.argv[2:])
+        return vlib.main(mod, sys.argv[2:])
+    finally:
+        for f, content in saved.items():
+            try:
+                with open(f, "rb") as fh:
+                    same = fh.read() == content
+            except OSError:
+                same = False
+            if not same:
+                with open(f, "wb") as fh:
+                    fh.write(content)
 
 
 if __name__ == "__main__":
